@@ -48,6 +48,9 @@ inductive Outcome (α : Type) where
   | err
   | panic
   | bad (why : String)
+  /-- the environment (global allocator) broke its contract: misaligned, null-page, wrapping
+  or overlapping block.  Theorems are stated for runs in which this never occurs. -/
+  | envBad
   deriving Repr, DecidableEq
 
 def Outcome.isBad {α} : Outcome α → Bool
